@@ -178,7 +178,10 @@ impl BlockRangeExt for BlockRange {
         let start = *self.start();
         let end = *self.end();
 
-        let Some(adjusted_end) = start.saturating_add(limit).checked_sub(1) else {
+        // The last kept height is `limit - 1` heights after `start`. Saturate only after
+        // subtracting, otherwise ranges that reach `u64::MAX` lose their last height.
+        let Some(adjusted_end) = limit.checked_sub(1).map(|n| start.saturating_add(n)) else {
+            // `limit == 0`, which is an empty range
             return RangeInclusive::new(1, 0);
         };
 
@@ -1256,6 +1259,9 @@ mod tests {
         assert_eq!((0..=u64::MAX).tailn(u64::MAX), 0..=(u64::MAX - 1));
         assert_eq!((0..=u64::MAX).tailn(1), 0..=0);
         assert!((0..=u64::MAX).tailn(0).is_empty());
+        assert_eq!((1..=u64::MAX).tailn(u64::MAX), 1..=u64::MAX);
+        assert_eq!((u64::MAX - 1..=u64::MAX).tailn(2), u64::MAX - 1..=u64::MAX);
+        assert_eq!((u64::MAX..=u64::MAX).tailn(1), u64::MAX..=u64::MAX);
 
         assert_eq!(
             new_block_ranges([1..=10]).tailn(u64::MAX),
